@@ -36,6 +36,7 @@ def gen(tier: str, seed: int) -> list[Case]:
     cfg.reexport_forms = tuple(f for f in pg.ALL_REEXPORT_FORMS if f"reexport:{f}" not in gated)
     cfg.private_enums = True  # the inventory contains private declarations too
     cfg.inheritance = True
+    cfg.twins = True  # modules of the same name (and some equal declaration names) in different packages
     n = 24 if tier == "quick" else 1600
     cases = []
     for i in range(n):
@@ -43,7 +44,28 @@ def gen(tier: str, seed: int) -> list[Case]:
         add_inheritance(rng, pkg)
         add_defaults(rng, pkg)
         cases.append(Case(cid=f"c12-{i}", files=pg.render(pkg), opts=(["-nc"] if i % 4 == 3 else []) + noise_opts(seed, PID, i), meta={"pkg": pkg}, reach=REACH))
+    for name, pkg in scenarios(rng).items():
+        cases.append(Case(cid=f"c12-scn-{name}", files=pg.render(pkg), opts=[], meta={"pkg": pkg}, reach=REACH))
     return cases
+
+
+def scenarios(rng) -> dict:
+    """Deterministic shapes aimed at name resolution that is shared between modules (run on every seed)."""
+    out = {}
+    # one class name defined in several modules, each definition subclassed in a module of its own, the name used in
+    # expressions too; modules are named so that every processing order occurs in some pair
+    pkg = pg.Pkg()
+    defs = ["alpha", "beta", "zeta", "gamma"]
+    rng.shuffle(defs)
+    for k, d in enumerate(defs):
+        base = pg.Cls("Base", methods=[pg.Fn(f"from_{d}", [], "int", role="inst")])
+        pkg.modules.append(pg.Mod(("pk",), d, decls=[base, pg.Fn(f"make_{d}", [], "Base", body="return Base()")]))
+        child = pg.Cls(f"Child{d.capitalize()}", bases=["Base"], cattrs=[pg.Attr(f"origin_{d}", "type", "Base")])
+        child.meta_bases = [f"pk.{d}.Base"]
+        user = pg.Mod(("pk",), f"{'use' if k % 2 else 'an'}_{d}", imports=[f"from pk.{d} import Base"], decls=[child, pg.Fn(f"build_{d}", [], "Base", body="return Base()")])
+        pkg.modules.append(user)
+    out["same-class-name-in-several-modules"] = pkg
+    return out
 
 
 def add_inheritance(rng, pkg: pg.Pkg) -> None:
@@ -60,7 +82,7 @@ def add_inheritance(rng, pkg: pg.Pkg) -> None:
                         continue  # base must be defined first
                     c.bases.append(c2.name)
                     c.meta_bases = getattr(c, "meta_bases", []) + [f"{m2.qname}.{c2.name}"]
-                elif rng.random() < 0.5:
+                elif rng.random() < 0.5 and not _binds(m, c2.name, f"from {m2.qname} import {c2.name}"):
                     line = f"from {m2.qname} import {c2.name}"
                     if line not in m.imports:
                         m.imports.append(line)
@@ -71,6 +93,13 @@ def add_inheritance(rng, pkg: pg.Pkg) -> None:
                     m.imports.append(f"from {m2.qname} import {c2.name} as {alias}")
                     c.bases.append(alias)
                     c.meta_bases = getattr(c, "meta_bases", []) + [f"{m2.qname}.{c2.name}"]
+
+
+def _binds(m: pg.Mod, name: str, but: str = "") -> bool:
+    """The module already binds ``name`` (own declaration or another import): a second plain import would rebind it."""
+    if any(getattr(d, "name", None) == name for d in m.decls):
+        return True
+    return any(ln != but and (ln.endswith(f" import {name}") or ln.endswith(f" as {name}")) for ln in m.imports)
 
 
 def _derives(a: pg.Cls, b: pg.Cls, tops) -> bool:
